@@ -25,6 +25,8 @@ def run(tier="quick", seed=0, replay=None):
         return 1
     core.lean_stage(chk, "C03")
     from harness import cover
+    from harness import fingerprint
+    fingerprint.direct(chk, ['ixai/explainer/sage/incremental.py', 'ixai/explainer/base.py', 'ixai/utils/tracker/multi_value.py'])
     _cv = cover.Cover(['ixai/explainer/sage/incremental.py', 'ixai/explainer/base.py', 'ixai/utils/tracker/multi_value.py'])
     _cv.__enter__()
     quick = tier == "quick"
@@ -51,7 +53,9 @@ def run(tier="quick", seed=0, replay=None):
                 chk.violation("return-value", f"IncrementalSage {_expl.cfg_desc(cfg)} call {t + 1}: returned {rec['ret']} but "
                               f"importance_values is {rec['est']['importance']}", _expl.replay_payload(rig, cfg, t))
                 return
-    _expl.spec_equality_check(chk, "C03", "sage", OBS, 70 if quick else 700, extra, "IncrementalSage")
+    _expl.long_stream_probe(chk, "sage", ["ixai/explainer/sage/incremental.py", "ixai/explainer/base.py", "ixai/utils/tracker/multi_value.py"],
+                            "IncrementalSage")
+    _expl.spec_equality_check(chk, "C03", "sage", OBS, chk.count(70, 700), extra, "IncrementalSage")
     _cv.__exit__(None, None, None)
     cover.gate(chk, _cv, only_functions=['IncrementalSage', 'BaseIncrementalFeatureImportance.__init__', 'BaseIncrementalFeatureImportance.importance_values', 'BaseIncrementalFeatureImportance.variances', '_get_mean_model_output', 'MultiValueTracker'])
     chk.exhaustive = False
